@@ -393,7 +393,420 @@ Proof.
   vm_compute. discriminate.
 Qed.
 
+
+(* ====================================================================================== *)
+(** * Part B: the simplifier's flags *)
+(* ====================================================================================== *)
+
+Section PartB.
+  Context {T : Type} (N : NumOps T).
+  Notation E := (expr T).
+  Notation FL := (@flags T).
+  Variable E_eqb : E -> E -> bool.
+  Hypothesis E_eqb_spec : forall a b, E_eqb a b = true <-> a = b.
+
+  (** ** Uniform view of a node: its children and how to put new children back *)
+  Definition echildren (e : E) : list E :=
+    match e with
+    | Const _ | Var _ => []
+    | Add l | Mul l => l
+    | Minus a b | Divide a b | Power a b => [a; b]
+    | Neg a | Recip a | Sin a | Cos a | NthPow a _ | NthRoot a _ | Exp a _ | Log a _ => [a]
+    end.
+
+  Definition erebuild (e : E) (l : list E) : E :=
+    match e, l with
+    | Add _, _ => Add l
+    | Mul _, _ => Mul l
+    | Minus _ _, [a; b] => Minus a b
+    | Divide _ _, [a; b] => Divide a b
+    | Power _ _, [a; b] => Power a b
+    | Neg _, [a] => Neg a
+    | Recip _, [a] => Recip a
+    | Sin _, [a] => Sin a
+    | Cos _, [a] => Cos a
+    | NthPow _ n, [a] => NthPow a n
+    | NthRoot _ n, [a] => NthRoot a n
+    | Exp _ b, [a] => Exp a b
+    | Log _ b, [a] => Log a b
+    | _, _ => e
+    end.
+
+  Lemma erebuild_same (e : E) : erebuild e (echildren e) = e.
+  Proof. destruct e; reflexivity. Qed.
+
+  Lemma expr_ind_ch (P : E -> Prop) :
+    (forall e, Forall P (echildren e) -> P e) -> forall e, P e.
+  Proof.
+    intros H e. induction e using expr_ind'; apply H; simpl; auto.
+  Qed.
+
+  (** ** The pure step, uniformly *)
+
+  (* the inner loop of [step_named], standalone, with and without labels *)
+  Fixpoint step_list_n (l : list E) : option (label * list E) :=
+    match l with
+    | [] => None
+    | x :: r =>
+        match step_named N x with
+        | Some (lab, x') => Some (lab, x' :: r)
+        | None =>
+            match step_list_n r with
+            | Some (lab, r') => Some (lab, x :: r')
+            | None => None
+            end
+        end
+    end.
+
+  Fixpoint step_list_p (l : list E) : option (list E) :=
+    match l with
+    | [] => None
+    | x :: r =>
+        match step N x with
+        | Some x' => Some (x' :: r)
+        | None =>
+            match step_list_p r with
+            | Some r' => Some (x :: r')
+            | None => None
+            end
+        end
+    end.
+
+  Lemma step_list_n_p (l : list E) :
+    match step_list_n l with Some (_, l') => Some l' | None => None end = step_list_p l.
+  Proof.
+    induction l as [|x r IH]; simpl; auto. unfold step.
+    destruct (step_named N x) as [[lab x']|]; auto.
+    rewrite <- IH. destruct (step_list_n r) as [[lab r']|]; auto.
+  Qed.
+
+  Lemma step_unfold (e : E) :
+    step N e =
+    match consolidate N e with
+    | Some c => Some c
+    | None =>
+        match step_list_p (echildren e) with
+        | Some l' => Some (erebuild e l')
+        | None => match apply_reducers N e with Some (_, e') => Some e' | None => None end
+        end
+    end.
+  Proof.
+    assert (HL : forall l,
+      (fix step_list (l : list E) : option (label * list E) :=
+         match l with
+         | [] => None
+         | x :: r =>
+             match step_named N x with
+             | Some (lab, x') => Some (lab, x' :: r)
+             | None =>
+                 match step_list r with
+                 | Some (lab, r') => Some (lab, x :: r')
+                 | None => None
+                 end
+             end
+         end) l = step_list_n l).
+    { induction l as [|x r IH]; simpl; auto; rewrite IH; reflexivity. }
+    unfold step at 1.
+    destruct e; cbn [step_named];
+      (destruct (consolidate N _) as [c0|]; [reflexivity|]);
+      cbn [echildren erebuild step_list_p]; try reflexivity;
+      try rewrite HL; try rewrite <- step_list_n_p; unfold step;
+      repeat match goal with
+             | |- context [step_list_n ?l] =>
+                 destruct (step_list_n l) as [[? ?]|]; [reflexivity|]
+             | |- context [step_named N ?a] =>
+                 destruct (step_named N a) as [[? ?]|]; [reflexivity|]
+             end;
+      unfold rules_at; destruct (apply_reducers N _) as [[? ?]|]; reflexivity.
+  Qed.
+
+  (** ** The flagged step, uniformly *)
+
+  Fixpoint step_list_f (f1 : FL) (l : list E) : option (FL * list E) :=
+    match l with
+    | [] => None
+    | x :: r =>
+        if reduced f1 x then
+          match step_list_f f1 r with
+          | Some (f2, r') => Some (f2, x :: r')
+          | None => None
+          end
+        else let (f2, x') := take_step_f N E_eqb f1 x in Some (f2, x' :: r)
+    end.
+
+  Lemma take_step_f_unfold (f : FL) (e : E) :
+    take_step_f N E_eqb f e =
+    if reduced f e then (f, e)
+    else
+      match consolidate_f N E_eqb f e with
+      | (f1, Some c) => (f1, c)
+      | (f1, None) =>
+          match step_list_f f1 (echildren e) with
+          | Some (f2, l') => (f2, erebuild e l')
+          | None =>
+              match apply_reducers N e with
+              | Some (_, e') => (f1, e')
+              | None => (mark_reduced E_eqb f1 e, e)
+              end
+          end
+      end.
+  Proof.
+    assert (HL : forall f1 l,
+      (fix step_list (l : list E) : option (FL * list E) :=
+         match l with
+         | [] => None
+         | x :: r =>
+             if reduced f1 x then
+               match step_list r with
+               | Some (f2, r') => Some (f2, x :: r')
+               | None => None
+               end
+             else let (f2, x') := take_step_f N E_eqb f1 x in Some (f2, x' :: r)
+         end) l = step_list_f f1 l).
+    { intros f1. induction l as [|x r IH]; simpl; auto; rewrite IH; reflexivity. }
+    destruct e; cbn [take_step_f];
+      (destruct (reduced f _); [reflexivity|]);
+      (destruct (consolidate_f N E_eqb f _) as [f1 [c0|]]; [reflexivity|]);
+      cbn [echildren erebuild step_list_f]; try reflexivity.
+    - rewrite HL. destruct (step_list_f f1 l) as [[f2 l']|]; reflexivity.
+    - rewrite HL. destruct (step_list_f f1 l) as [[f2 l']|]; reflexivity.
+    - destruct (reduced f1 e1); [destruct (reduced f1 e2)|];
+        try destruct (take_step_f N E_eqb f1 _) as [f2 x']; reflexivity.
+    - destruct (reduced f1 e1); [destruct (reduced f1 e2)|];
+        try destruct (take_step_f N E_eqb f1 _) as [f2 x']; reflexivity.
+    - destruct (reduced f1 e1); [destruct (reduced f1 e2)|];
+        try destruct (take_step_f N E_eqb f1 _) as [f2 x']; reflexivity.
+    - destruct (reduced f1 e); try destruct (take_step_f N E_eqb f1 _) as [f2 x']; reflexivity.
+    - destruct (reduced f1 e); try destruct (take_step_f N E_eqb f1 _) as [f2 x']; reflexivity.
+    - destruct (reduced f1 e); try destruct (take_step_f N E_eqb f1 _) as [f2 x']; reflexivity.
+    - destruct (reduced f1 e); try destruct (take_step_f N E_eqb f1 _) as [f2 x']; reflexivity.
+    - destruct (reduced f1 e); try destruct (take_step_f N E_eqb f1 _) as [f2 x']; reflexivity.
+    - destruct (reduced f1 e); try destruct (take_step_f N E_eqb f1 _) as [f2 x']; reflexivity.
+    - destruct (reduced f1 e); try destruct (take_step_f N E_eqb f1 _) as [f2 x']; reflexivity.
+    - destruct (reduced f1 e); try destruct (take_step_f N E_eqb f1 _) as [f2 x']; reflexivity.
+  Qed.
+
+  (** ** Consolidation with the [failed] memo agrees with pure consolidation *)
+
+  Lemma consolidate_f_spec (f f1 : FL) (e : E) (o : option E) :
+    truthful N f -> consolidate_f N E_eqb f e = (f1, o) ->
+    truthful N f1 /\ o = consolidate N e.
+  Proof.
+    intros Ht H.
+    assert (HF : consolidate_f N E_eqb f e =
+      if var_free e then
+        if is_Const e then (f, None)
+        else if failed f e then (f, None)
+        else match eval N [] e with
+             | Val v => (f, Some (Const v))
+             | DomErr => (mark_failed E_eqb f e, None)
+             | _ => (f, None)
+             end
+      else (f, None)) by (destruct e; reflexivity).
+    assert (HP : consolidate N e =
+      if var_free e then
+        if is_Const e then None
+        else match eval N [] e with Val v => Some (Const v) | _ => None end
+      else None) by (destruct e; reflexivity).
+    rewrite HF in H. rewrite HP. clear HF HP.
+    destruct (var_free e) eqn:VF; [|inversion H; subst; auto].
+    destruct (is_Const e); [inversion H; subst; auto|].
+    destruct (failed f e) eqn:Fe.
+    - inversion H; subst. split; auto.
+      destruct Ht as [_ Ht2]. destruct (Ht2 e Fe) as [_ Hne].
+      destruct (eval N [] e) as [v| | |k] eqn:Ev; auto. exfalso. apply (Hne v). reflexivity.
+    - destruct (eval N [] e) as [v| | |k] eqn:Ev; inversion H; subst; split; auto.
+      destruct Ht as [Ht1 Ht2]. split.
+      + exact Ht1.
+      + intros x Hx. simpl in Hx. apply orb_true_iff in Hx. destruct Hx as [Hx | Hx].
+        * apply E_eqb_spec in Hx. subst x. split; auto. intros v. rewrite Ev. discriminate.
+        * apply Ht2. exact Hx.
+  Qed.
+
+  (** ** flags_step *)
+
+  Let good (e : E) : Prop :=
+    forall (f f' : FL) (e' : E),
+      truthful N f -> take_step_f N E_eqb f e = (f', e') ->
+      truthful N f' /\ (e' = e \/ step N e = Some e').
+
+  Lemma step_list_f_ok (f1 : FL) (l : list E) :
+    Forall good l -> truthful N f1 ->
+    match step_list_f f1 l with
+    | Some (f2, l') => truthful N f2 /\ (l' = l \/ step_list_p l = Some l')
+    | None => step_list_p l = None
+    end.
+  Proof.
+    intros HF Ht. induction HF as [|x r Hx Hr IH]; simpl; auto.
+    destruct (reduced f1 x) eqn:Rx.
+    - assert (Sx : step N x = None) by (apply Ht; exact Rx). rewrite Sx.
+      destruct (step_list_f f1 r) as [[f2 r']|].
+      + destruct IH as [I1 [I2 | I2]]; split; auto.
+        * left. congruence.
+        * right. rewrite I2. reflexivity.
+      + rewrite IH. reflexivity.
+    - destruct (take_step_f N E_eqb f1 x) as [f2 x'] eqn:TS.
+      destruct (Hx f1 f2 x' Ht TS) as [H1 [H2 | H2]]; split; auto.
+      + left. congruence.
+      + right. rewrite H2. reflexivity.
+  Qed.
+
+  Lemma take_step_f_ok (e : E) : good e.
+  Proof.
+    induction e as [e IH] using expr_ind_ch. intros f f' e' Ht H.
+    rewrite take_step_f_unfold in H.
+    destruct (reduced f e) eqn:Re.
+    { inversion H; subst. auto. }
+    destruct (consolidate_f N E_eqb f e) as [f1 o] eqn:CF.
+    destruct (consolidate_f_spec f f1 e o Ht CF) as [Ht1 Ho].
+    rewrite step_unfold. rewrite <- Ho.
+    destruct o as [c|].
+    { inversion H; subst. auto. }
+    pose proof (step_list_f_ok f1 (echildren e) IH Ht1) as SL.
+    destruct (step_list_f f1 (echildren e)) as [[f2 l']|].
+    { inversion H; subst. destruct SL as [S1 [S2 | S2]]; split; auto.
+      - left. rewrite S2. apply erebuild_same.
+      - right. rewrite S2. reflexivity. }
+    rewrite SL.
+    destruct (apply_reducers N e) as [[nm e'']|] eqn:AR.
+    { inversion H; subst. auto. }
+    inversion H; subst. split; auto.
+    destruct Ht1 as [Ht1 Ht2]. split.
+    - intros x Hx. simpl in Hx. apply orb_true_iff in Hx. destruct Hx as [Hx | Hx].
+      + apply E_eqb_spec in Hx. subst x.
+        rewrite step_unfold, <- Ho, SL, AR. reflexivity.
+      + apply Ht1. exact Hx.
+    - exact Ht2.
+  Qed.
+
+  (** ** flags_fully_reduce *)
+
+  Lemma fully_reduce_f_ok (budget : nat) :
+    forall (f f' : FL) (e e' : E),
+      truthful N f -> fully_reduce_f N E_eqb budget f e = (f', e') ->
+      truthful N f' /\ exists k, iter_step_g N k e = Some e'.
+  Proof.
+    induction budget as [|b IH]; intros f f' e e' Ht H; simpl in H.
+    - inversion H; subst. split; auto. exists 0. reflexivity.
+    - destruct (reduced f e).
+      + inversion H; subst. split; auto. exists 0. reflexivity.
+      + destruct (take_step_f N E_eqb f e) as [f1 e1] eqn:TS.
+        destruct (take_step_f_ok e f f1 e1 Ht TS) as [Ht1 Hs].
+        destruct (IH f1 f' e1 e' Ht1 H) as [Ht' [k Hk]]. split; auto.
+        destruct Hs as [Hs | Hs].
+        * subst e1. exists k. exact Hk.
+        * exists (S k). simpl. rewrite Hs. exact Hk.
+  Qed.
+
+  (** ** flags_history_independent *)
+
+  (* the pure rewrite sequence is deterministic: it has at most one rule-free member *)
+  Lemma iter_step_g_det (a : nat) :
+    forall (b : nat) (e x y : E),
+      iter_step_g N a e = Some x -> step N x = None ->
+      iter_step_g N b e = Some y -> step N y = None -> x = y.
+  Proof.
+    induction a as [|a IH]; intros b e x y Hx Sx Hy Sy; simpl in Hx.
+    - inversion Hx; subst. destruct b as [|b]; simpl in Hy.
+      + inversion Hy; subst. reflexivity.
+      + rewrite Sx in Hy. discriminate.
+    - destruct (step N e) as [e1|] eqn:Se; [|discriminate].
+      destruct b as [|b]; simpl in Hy.
+      + inversion Hy; subst. rewrite Sy in Se. discriminate.
+      + rewrite Se in Hy. eapply IH; eauto.
+  Qed.
+
+  Lemma flags_history_ok (b1 b2 : nat) (f1 f2 f1' f2' : FL) (e e1 e2 : E) :
+    truthful N f1 -> truthful N f2 ->
+    fully_reduce_f N E_eqb b1 f1 e = (f1', e1) -> reduced f1' e1 = true ->
+    fully_reduce_f N E_eqb b2 f2 e = (f2', e2) -> reduced f2' e2 = true ->
+    e1 = e2.
+  Proof.
+    intros Ht1 Ht2 H1 R1 H2 R2.
+    destruct (fully_reduce_f_ok b1 f1 f1' e e1 Ht1 H1) as [Ht1' [k1 Hk1]].
+    destruct (fully_reduce_f_ok b2 f2 f2' e e2 Ht2 H2) as [Ht2' [k2 Hk2]].
+    eapply iter_step_g_det; eauto.
+    - apply Ht1'. exact R1.
+    - apply Ht2'. exact R2.
+  Qed.
+End PartB.
+
+Theorem flags_step : C09_flags_step.
+Proof.
+  unfold C09_flags_step. intros T N E_eqb Hspec f f' e e' Ht H.
+  eapply take_step_f_ok; eauto.
+Qed.
+
+Theorem flags_fully_reduce : C09_flags_fully_reduce.
+Proof.
+  unfold C09_flags_fully_reduce. intros T N E_eqb Hspec budget f f' e e' Ht H.
+  eapply fully_reduce_f_ok; eauto.
+Qed.
+
+Theorem flags_history_independent : C09_flags_history_independent.
+Proof.
+  unfold C09_flags_history_independent.
+  intros T N E_eqb Hspec b1 b2 f1 f2 f1' f2' e e1 e2 Ht1 Ht2 H1 R1 H2 R2.
+  eapply (flags_history_ok N E_eqb Hspec b1 b2 f1 f2 f1' f2' e e1 e2); eauto.
+Qed.
+
+(* ====================================================================================== *)
+(** * Non-vacuity: the premises are satisfiable on non-trivial objects *)
+(* ====================================================================================== *)
+
+(* Part A: a DAG that uses the object with oid 2 twice; two API calls at different points,
+   starting from a cache that holds a stale value for that very object *)
+Example history_nonvacuous :
+  let sh := SNeg 2%positive (SVar 3%positive) in
+  let root := SAdd 1%positive [sh; sh] in
+  let c1 := mkCall root [(3%positive, 5%Z)] [root; sh] in
+  let c2 := mkCall root [(3%positive, 7%Z)] [sh; root] in
+  Forall call_ok [c1; c2] /\
+  snd (run_history ZOps [(2%positive, 100%Z)] [c1; c2]) =
+    [[Val (-10)%Z; Val (-5)%Z]; [Val (-7)%Z; Val (-14)%Z]] /\
+  map (pure_call ZOps) [c1; c2] = [[Val (-10)%Z; Val (-5)%Z]; [Val (-7)%Z; Val (-14)%Z]].
+Proof.
+  intros sh root c1 c2.
+  assert (Hwf : wf_ids root).
+  { intros a b i Ha Hb Hoa Hob. simpl in Ha, Hb.
+    repeat match goal with H : _ \/ _ |- _ => destruct H end; try contradiction;
+      subst; simpl in *; try congruence; reflexivity. }
+  split; [|split; reflexivity].
+  apply Forall_cons; [|apply Forall_cons; [|apply Forall_nil]];
+    (split; [exact Hwf|]); simpl; intros x Hx;
+    (destruct Hx as [Hx|[Hx|[]]]; subst x; simpl; auto).
+Qed.
+
+(* Part B: a decidable syntactic equality exists (here at Z), the empty table is truthful, and
+   a run of [fully_reduce_f] ends on a flagged form *)
+Fixpoint exprZ_eq_dec (a b : expr Z) {struct a} : {a = b} + {a <> b}.
+Proof.
+  decide equality; try apply Z.eq_dec; try apply Pos.eq_dec;
+    apply (list_eq_dec exprZ_eq_dec).
+Defined.
+
+Definition exprZ_eqb (a b : expr Z) : bool := if exprZ_eq_dec a b then true else false.
+
+Lemma exprZ_eqb_spec (a b : expr Z) : exprZ_eqb a b = true <-> a = b.
+Proof. unfold exprZ_eqb. destruct (exprZ_eq_dec a b); split; auto; discriminate. Qed.
+
+Definition no_flags : @flags Z := mkFlags (fun _ => false) (fun _ => false).
+
+Example flags_nonvacuous :
+  (forall a b, exprZ_eqb a b = true <-> a = b) /\
+  truthful ZOps no_flags /\
+  let r := fully_reduce_f ZOps exprZ_eqb 5 no_flags (Add [Var 2%positive; Neg (Const 3%Z)]) in
+  snd r = Add [Var 2%positive; Const (-3)%Z] /\ reduced (fst r) (snd r) = true.
+Proof.
+  split; [exact exprZ_eqb_spec|]. split.
+  - split; intros e H; discriminate.
+  - vm_compute. auto.
+Qed.
+
 Print Assumptions reset_clean.
 Print Assumptions eval_s_refines.
 Print Assumptions history_independent.
 Print Assumptions no_reset_refuted.
+Print Assumptions flags_step.
+Print Assumptions flags_fully_reduce.
+Print Assumptions flags_history_independent.
